@@ -186,8 +186,8 @@ class Scratch:
 
 def kani_cmd(h, tgt, extra=''):
     feat = ('--features ' + h.features) if h.features else ''
-    return ('cargo kani -p %s %s --harness %s --exact -Z stubbing --output-format terse --target-dir %s %s'
-            % (h.package, feat, h.full, tgt, extra))
+    return ('cargo kani -p %s %s --harness %s --exact -Z stubbing --no-assertion-reach-checks --output-format terse --target-dir %s %s %s'
+            % (h.package, feat, h.full, tgt, os.environ.get('VERIF_KANI_EXTRA', ''), extra))
 
 
 def build_group(scr, package, features):
@@ -408,7 +408,9 @@ def check(prop, tier, jobs, keep, only=None):
                 kid = exp.split(':', 1)[1]
                 k = known.get(kid)
                 if r['verdict'] == 'fails':
-                    if k and k.get('status') == 'known':
+                    roles = set(k.get('roles', [])) if k else set()
+                    foreign = [f for f in r['failed'] if roles and f['desc'] not in roles]
+                    if k and k.get('status') == 'known' and not foreign:
                         known_confirmed.append((k, r))
                         r['verdict'] = 'known-finding'
                     else:
